@@ -29,13 +29,65 @@ theorem aliveTotalTransports_complete :
 theorem freshWitnesses_bad :
     ∀ w ∈ freshWitnesses, domain w.1 w.2.1 w.2.2 = true ∧ freshOK w.1 .c0 w.2.1 w.2.2 = false := by decide
 
+/-- **the domain hypothesis, made visible and closed**: the hand-written boundary domain restricts every
+    theorem below (`domain t m o` guards `mapTotal`, `InDomain` restricts the environment).  What it
+    defines away is exactly the generated list `assumedImpossible` — every out-of-domain row whose
+    OBSERVED act is not allowed is in that list (or was never observed, `.na`); each list entry is
+    justified by a rule of the reviewed file tools/gen/c08_impossible.json (the translator fails on an
+    unjustified row). -/
+theorem out_of_domain_bad_rows_listed : ∀ t ∈ Transport.all, ∀ m ∈ Method.all, ∀ o ∈ Outcome.all,
+    (errMap t m o).ok = false → domain t m o = false →
+      errMap t m o = .na ∨ (t, m, o) ∈ assumedImpossible := by decide
+
+/-- the hand-written Lean predicates `neverData` / `setsLoss` equal the tables the translator emits from
+    the Python twins the harness uses (one decided source of truth) -/
+theorem loss_predicates_match : ∀ t ∈ Transport.all, ∀ o ∈ Outcome.all,
+    neverData t o = tbl2 neverDataTbl false t.toNat o.toNat
+      ∧ setsLoss t o = tbl2 setsLossTbl false t.toNat o.toNat := by decide
+
+/-- with an empty control buffer the state-dependent table is the plain one (generated, decided) -/
+theorem errMapC_c0 : ∀ t ∈ Transport.all, ∀ m ∈ Method.all, ∀ o ∈ Outcome.all,
+    errMapC t .c0 m o = errMap t m o := by decide
+
+/-- transports on which a lost session is reported PROMPTLY (decided on the generated tables): after a
+    detectable loss at most one read returns without raising -/
+def promptTransports : List Transport := Transport.all.filter promptTotalB
+
+theorem promptTransports_prompt : ∀ t ∈ promptTransports, promptTotal t := by decide
+
 /-- the simulated transport of the harness is total (its "eof" fault raises ScrapliConnectionError) -/
 theorem sim_total : mapTotal .sim ∧ aliveTotal .sim := by decide
 
 /-! ### the property -/
 
+/-- the open stages (socket connect, ssh handshake, authentication, channel open) are not steps of the
+    program semantics; for them the property is the table fact itself — made a theorem of its own so that
+    it shows in the audited list: no in-domain outcome of an open stage lets a non-allowed act through. -/
+theorem open_stage_never_raw (t : Transport) (ht : mapTotal t) (m : Method)
+    (_hm : m = .open ∨ m = .openHs ∨ m = .openAuth ∨ m = .openChan) (o : Outcome)
+    (hd : domain t m o = true) : (errMap t m o).ok = true := by
+  have h := (good_of_total ht).fresh_ok .c0 m o hd
+  rwa [errMapC_c0 t (Transport.mem_all t) m (Method.mem_all m) o (Outcome.mem_all o)] at h
+
+/-- `close()` never lets a non-allowed act through: on a live session, with a Telnet command pending, and
+    after every detectable loss. -/
+theorem close_never_raw (t : Transport) (ht : mapTotal t) (c : Ctrl) (o : Outcome) (hd : domain t .close o = true) :
+    (errMapC t c .close o).ok = true ∧
+    ∀ lm lo, (lm = .read ∨ lm = .write) → domain t lm lo = true → setsLoss t lo = true →
+      (after2 t c lm lo .close o).ok = true :=
+  ⟨(good_of_total ht).fresh_ok c .close o hd,
+   fun lm lo hlm hdl hsl => (good_of_total ht).post_close c lm lo o hlm hdl hsl hd⟩
+
 /-- **safety for every environment** (also without any loss): an operation never lets a raw exception
-    escape, never hangs, and ends within the operation timeout. -/
+    escape and never loops without the backstop being able to end it.
+    HONEST LABEL: `ticks ≤ T` is NOT a result about scrapli — `step` refuses every read once `T` ticks are
+    used, so the bound restates the modelling assumption "C07's timeout mechanism pre-empts any loop that
+    gives it a chance to run".  The content of this theorem is (a) no raw class, ever, and (b) reads that
+    give the timeout no chance to run (`retEmptyBusy`) happen at most once, so the backstop CAN end every
+    loop.  `T` is a number of ticks; `T = 0` means "already expired" (the first read is refused), NOT
+    scrapli's `timeout_ops = 0` (= disabled).  The disabled case is an arbitrarily large `T`; what holds
+    without any backstop is `loss_is_prompt` below.  A read that simply blocks (half-open TCP without
+    FIN/RST) is not an outcome here: that case is C07's (timeouts). -/
 theorem no_raw_no_hang (t : Transport) (ht : mapTotal t) (env : Env) (hd : InDomain t env) (T : Nat)
     (p : Program) (st : TState) (hst : InvSt t st) :
     (run t env T p st).ticks ≤ T ∧
@@ -58,7 +110,10 @@ theorem no_raw_no_hang (t : Transport) (ht : mapTotal t) (env : Env) (hd : InDom
     EPIPE, library error, timeouts, in any mixture the library can produce; writes may still be
     accepted silently) and the rest of the operation still contains a read, then the operation raises
     one of ScrapliConnectionError / ScrapliConnectionNotOpened / ScrapliAuthenticationFailed /
-    ScrapliTimeout, no later than the operation timeout. -/
+    ScrapliTimeout, no later than the operation timeout.
+    HONEST LABEL: this theorem accepts "ScrapliTimeout after T" for every loss (a transport may keep
+    returning b"" and rely on the backstop, as both Telnet transports once did) and its time bound is the
+    modelled backstop; "promptly" in the strict sense is `loss_is_prompt`. -/
 theorem loss_is_scrapli_error (t : Transport) (ht : mapTotal t) (env : Env) (hd : InDomain t env) (T : Nat)
     (p : Program) (st : TState) (hst : InvSt t st) (n : Nat) (cf : Cfg)
     (hreach : stepsTo t env T n ⟨p, st, 0, 0⟩ = .inl cf)
@@ -79,9 +134,28 @@ theorem loss_is_scrapli_error (t : Transport) (ht : mapTotal t) (env : Env) (hd 
   | raisedRaw r => exact absurd ho (h5 r)
   | hang => exact absurd ho (h4 (by omega))
 
+/-- **C08, loss_is_prompt** (T-free: no backstop needed — also the `timeout_ops = 0` case): on a transport
+    whose generated tables are prompt (`promptTotal t`, decided), an operation that is inside a plain read
+    loop when the session dies raises an allowed scrapli class after AT MOST THREE further transport reads,
+    whatever `T` is: a read that first detects the loss may return b"" once, one more may meet EOF on a
+    session lost otherwise (`eofUpgrade`), the next one raises.  (The telnet login loop `ra` is excluded on
+    purpose: it swallows the error and a silently accepted write lets it loop until the timeout.) -/
+theorem loss_is_prompt (t : Transport) (ht : mapTotal t) (hp : promptTotal t) (env : Env) (hd : InDomain t env)
+    (T : Nat) (cf : Cfg) (p : Program) (hprog : cf.prog = .r :: p) (hi : InvSt t cf.st)
+    (hdead : DeadFrom t cf.calls env) (n : Nat) :
+    ∃ c, (exec t env T (n + 3) cf).out = .raised c ∧ allowed c
+      ∧ (exec t env T (n + 3) cf).calls ≤ cf.calls + 3 := by
+  obtain ⟨c, h1, h2, h3⟩ := exec_prompt (good_of_total ht) hp hd T cf p hprog hi hdead n
+  exact ⟨c, h1, allowed_of_ne_other h2, h3⟩
+
 /-- **C08, dead_stays_dead**: after an operation was interrupted by the loss of the session,
     `isalive()` is False, and every further operation that reads raises an allowed scrapli error
-    within its own timeout — for every later environment in which the session stays lost. -/
+    within its own timeout — for every later environment in which the session stays lost.
+    HONEST LABEL: on paths that end by the backstop the model closes the transport
+    (`Cfg.timedOut`, scrapli's default; with `Settings.NO_TERMINATE_ON_TIMEOUT` the transport stays open —
+    C07 — and if the operation timed out before touching the dead session nothing was detected and
+    `isalive()` may rightly still be True).  On every other path `isalive = False` comes from the recorded
+    loss and `aliveTotal t`. -/
 theorem dead_stays_dead (t : Transport) (ht : mapTotal t) (ha : aliveTotal t) (env : Env) (hd : InDomain t env)
     (T : Nat) (p : Program) (st : TState) (hst : InvSt t st) (n : Nat) (cf : Cfg)
     (hreach : stepsTo t env T n ⟨p, st, 0, 0⟩ = .inl cf)
@@ -114,7 +188,8 @@ theorem dead_stays_dead (t : Transport) (ht : mapTotal t) (ha : aliveTotal t) (e
 
 /-- **C08, never_opened_raises_not_opened**: on a connection whose handle is None (never opened, or
     closed) the first transport call of any operation raises ScrapliConnectionNotOpened — at once,
-    whatever the environment — and `isalive()` is False. -/
+    whatever the environment — and `isalive()` is False.  (`0 < T`: in the model `T = 0` is an already
+    expired timeout, which would refuse a leading read with ScrapliTimeout; it is not `timeout_ops = 0`.) -/
 theorem never_opened_raises_not_opened (t : Transport) (ht : mapTotal t) (env : Env) (T : Nat) (hT : 0 < T)
     (p : Program) (hp : p ≠ []) (lb : Option (Method × Outcome)) (c : Ctrl) :
     (run t env T p ⟨false, lb, c⟩).out = .raised .notOpened ∧ (run t env T p ⟨false, lb, c⟩).calls = 1
@@ -168,6 +243,13 @@ example : run .sim exEnv 9 exProg = ⟨.raised .connError, ⟨true, some (.read,
 example : (tNext .asynctelnet {} .read .moreIac).ctrl = .cIac
     ∧ (tNext .asynctelnet (tNext .asynctelnet {} .read .moreIac) .read .empty)
         = ⟨true, some (.read, .empty), .cIac⟩ := by decide
+
+/-- `loss_is_prompt` instantiated: the sim transport is prompt; inside the last read loop of `send_input`
+    (the fault position of the first example) the dead session raises at the very next read — with the
+    timeout far away (T = 1000) -/
+example : promptTotal .sim ∧ Transport.sim ∈ promptTransports := by decide
+example : (exec .sim exEnv 1000 3 ⟨[.r], {}, 5, 3⟩).out = .raised .connError
+    ∧ (exec .sim exEnv 1000 3 ⟨[.r], {}, 5, 3⟩).calls = 6 := by decide
 
 /-- the same drop while only empty reads arrive (Telnet-style EOF) is ended by the timeout backstop -/
 example : (run .sim (envRW [.data, .data, .data] .empty [] .data) 9 exProg).out = .raised .timeout
